@@ -1,9 +1,70 @@
-(* C03 — each element is constructed once and destroyed once.  Property theorems only. *)
-From Tetl Require Import Lib.Base C03.Trace C03.Model C03.Spec C03.ProofsTrace.
+(* C03 — each element is constructed once and destroyed once.  Property theorems only.
+   Owning types modelled: static_vector (non-trivial storage) and inplace_vector, for element types
+   with (fl = true) and without (fl = false) move operations, every capacity, every history of the
+   operations of C03.Model.op on two objects. *)
+From Tetl Require Import Lib.Base C03.Trace C03.Model C03.Spec C03.ProofsTrace C03.ProofsHist C03.ProofsVerdict.
 
-(* automaton: the source of a move is left MovedFrom (never Dead) ... *)
+(** * the automaton *)
+(* a well-formed trace that leaves nothing alive: the history of EVERY location is
+   (construct (assign | use | read)* destroy)*  -- each object constructed at l is destroyed exactly
+   once before the next one is constructed there, nothing touches l while it holds no object --
+   and constructor and destructor calls on l are equally many *)
+Theorem C03_wf_all_dead_once_each : forall evs, wf_trace evs = true -> all_dead evs = true ->
+  forall l, once_each l evs /\ constructions l evs = destructions l evs.
+Proof. exact wf_all_dead_once_each. Qed.
+Print Assumptions C03_wf_all_dead_once_each.
+
+(* the source of a move is left MovedFrom (never Dead) ... *)
 Theorem C03_moved_from_source_state : forall m l s h,
   (h = Construct l (Move s) \/ h = Assign l (Move s)) -> alive m s = true -> s <> l ->
   lookup (snd (astep m h)) s = MovedFrom.
 Proof. exact moved_from_source_state. Qed.
 Print Assumptions C03_moved_from_source_state.
+
+(* ... and a moved-from object is destructible and assignable *)
+Theorem C03_moved_from_then_legal : forall m s, lookup m s = MovedFrom ->
+  fst (astep m (Destroy s)) = true /\ (forall h, src_ok m h = true -> fst (astep m (Assign s h)) = true).
+Proof. exact moved_from_then_legal. Qed.
+Print Assumptions C03_moved_from_then_legal.
+
+(** * static_vector / inplace_vector: all flavours, all capacities, all histories *)
+(* a history in which no precondition is violated, followed by the destructors of the two objects:
+   no constructor over a live object, no assignment / destructor / read on dead storage, nothing alive
+   at the end *)
+Theorem C03_vec_lifecycle : forall (fl : bool) (cap : nat) (iv : bool) (ops : list op),
+  history_completed fl cap iv ops = true ->
+  wf_trace (trace fl cap iv ops) = true /\ all_dead (trace fl cap iv ops) = true.
+Proof. exact completed_lifecycle. Qed.
+Print Assumptions C03_vec_lifecycle.
+
+(* per location (element slot of either object or of a step-local container, library temporary,
+   caller-side object): constructed once and destroyed once, alternately *)
+Theorem C03_vec_each_location_once : forall (fl : bool) (cap : nat) (iv : bool) (ops : list op),
+  history_completed fl cap iv ops = true ->
+  forall l, once_each l (trace fl cap iv ops) /\
+            constructions l (trace fl cap iv ops) = destructions l (trace fl cap iv ops).
+Proof. exact completed_each_location_once. Qed.
+Print Assumptions C03_vec_each_location_once.
+
+(* ANY history (no hypothesis): every event up to its end, or up to the contract check that stops
+   it, is legal, and the fuelled loop of the rotate model never runs out of fuel *)
+Theorem C03_vec_prefix_wf : forall (fl : bool) (cap : nat) (iv : bool) (ops : list op),
+  wf_trace (events_of (fst (fst (run fl cap iv (0, 0) [] ops)))) = true /\
+  no_fuel (fst (fst (run fl cap iv (0, 0) [] ops))) = true.
+Proof. intros fl cap iv ops. split; [apply prefix_wf|apply never_out_of_fuel]. Qed.
+Print Assumptions C03_vec_prefix_wf.
+
+(* the verdict printed by the correspondence (Model.run_case) is the one the specification expects *)
+Theorem C03_vec_verdict : forall (fl : bool) (cap : nat) (iv : bool) (ops : list op),
+  history_completed fl cap iv ops = true ->
+  snd (run_case fl cap iv ops) = (true, 0).
+Proof. exact completed_verdict. Qed.
+Print Assumptions C03_vec_verdict.
+
+(* the hypothesis is satisfiable by a history that copies, moves, swaps, inserts and erases *)
+Example C03_nonvacuous :
+  history_completed true 3 false
+    [EmplaceBack false 1; PushBackRv false 2; InsertCr false 0 3; MoveAssign true; Swap; SelfSwap false;
+     EraseAt false 1; CopyConstruct false; MoveRoundTrip false; Resize true 2] = true /\
+  history_completed false 2 true [IvTryPushCr false 1; IvUncheckedPushRv false 2; IvMoveConstruct false; IvCopyConstruct true] = true.
+Proof. split; vm_compute; reflexivity. Qed.
